@@ -423,6 +423,40 @@ def random_molecule(rng, k):
     return mol
 
 
+ODD_PLANS = [['A', 'odd', 'B'], ['A', 'odd', 'B', 'B'], ['odd', 'A'], ['A', 'odd'], ['odd', 'A', 'B', 'B'], ['A', 'B', 'odd', 'B'],
+             ['odd', 'odd', 'A'], ['B', 'odd', 'A', 'A']]
+
+
+def odd_order_molecule(rng, k):
+    """a fragment whose mates lie on the same strand (no mate-overlap-safe span: it must not vote, and it must not keep the
+    other fragments from voting) at every place in the insertion order; the ordinary fragments of the molecule DISAGREE
+    (A: every target converted, B: none), so that a lost vote changes the consensus and not only the number of calls"""
+    while True:
+        ref = random_reference(rng)
+        if len(ref) >= 20:
+            break
+    n = len(ref)
+    ref_upper = ''.join(ref).upper()
+    cls = rng.choice(['nla', 'base'])
+    conv = rng.choice(['F', 'R'])
+    rev = rng.random() < 0.5
+    target = ('G' if rev else 'C') if conv == 'F' else ('C' if rev else 'G')
+    if not rev:
+        (a1, b1), (a2, b2) = (2, 14), (8, n - 2)
+    else:
+        (a1, b1), (a2, b2) = (n - 14, n - 2), (2, n - 8)
+    every = set(p for p in range(n) if ref_upper[p] == target)
+    frags = []
+    for kind in rng.choice(ODD_PLANS):
+        meth = set() if kind == 'B' else every
+        r1 = synth_read(rng, ref_upper, target, meth, 1, rev, a1, b1, [[0, b1 - a1]], 0, set(), 0.0)
+        r2 = synth_read(rng, ref_upper, target, meth, 2, rev if kind == 'odd' else not rev, a2, b2, [[0, b2 - a2]], 0, set(), 0.0)
+        frags.append({'reads': [r1, r2]})
+    return {'src': 'odd_fragment_order', 'cls': cls, 'conv': conv, 'contig': 'o%d' % k, 'ref': ''.join(ref), 'frags': frags,
+            'tags': {}, 'frag_kwargs': {'check_motif': False} if cls == 'nla' else {}, 'refobj': rng.choice(['fasta', 'cached']),
+            'history': rng.choice(['once', 'incremental']), 'post': 'none', 'dove': None}
+
+
 def many_fragments_molecule():
     """ONE molecule of 257 fragments (vote counters must not be narrower than the number of fragments):
     position 1 (CGA): 256 fragments show the conversion, 1 does not            -> strict plurality of 256:1
@@ -493,6 +527,7 @@ def main():
     n_random = 400 if tier == 'quick' else 20000
     mols = [random_molecule(rng, k) for k in range(n_random)]
     mols.append(many_fragments_molecule())
+    mols += [odd_order_molecule(rng, k) for k in range(60 if tier == 'quick' else 2000)]
     for path in scn_files:
         with open(path) as f:
             d = json.load(f)
@@ -515,7 +550,7 @@ def main():
         # the lookup called directly on the contigs of the first random molecules
         tid = len(mols) + 1
         for m in mols[:25 if tier == 'quick' else 1500]:
-            if m['src'] == 'random' or m['src'] == 'halfmapped':
+            if m['src'] in ('random', 'halfmapped'):
                 for ev in runner.contexts(tid, m['contig'], rng, 3):
                     f.write(json.dumps(ev, separators=(',', ':')) + '\n')
                     tid += 1
